@@ -1,5 +1,6 @@
 import LhasaV.Model.Extract
 import LhasaV.Lemmas.HeaderName
+import LhasaV.Lemmas.GlobFs
 /-!
 # C10 — extraction never touches anything outside the extraction directory
 -/
@@ -39,5 +40,50 @@ theorem full_path_relative (h : Header.Hdr) (o : Opts) (hw : o.extractPath = non
       simpa using this
   · simp only [hu, Bool.false_eq_true, if_false, List.nil_append]
     exact stripSlashes_no_lead (h.filename.getD [])
+
+/-- Lexical containment of the constructed path: for a header satisfying the C11 invariant (file
+name without '/', clean path) whose stored path is directory-shaped and whose name is not "..",
+the path the tool builds has no ".." component and is relative. (The side condition on the name is
+necessary — `dotdot_name_possible` — a member may be NAMED "..": then `open(O_EXCL)`, `mkdir` and
+`symlink` fail on it, which is checked by correspondence.) -/
+theorem full_path_contained (h : Header.Hdr) (o : Opts) (hf : Header.FnOk h) (hp : Header.PathOk h)
+    (hw : o.extractPath = none)
+    (hdir : h.path.getD [] = [] ∨ ∃ d, h.path.getD [] = d ++ [0x2f])
+    (hname : h.filename.getD [] ≠ [0x2e, 0x2e]) :
+    GlobFs.NoDotDot (fileFullPath h o) ∧ (fileFullPath h o).head? ≠ some 0x2f :=
+  GlobFs.full_path_contained h o hf hp hw hdir hname
+
+theorem dotdot_name_possible :
+    ∃ h : Header.Hdr, Header.FnOk h ∧ Header.PathOk h ∧ ¬ GlobFs.NoDotDot (fileFullPath h {}) :=
+  GlobFs.dotdot_name_possible
+
+/-- **The deferred-symlink guard** (`path_passes_through_symlink`, added by the repair of the chained
+symlink defect): in ANY file-system state, for a relative path without ".." components, if no
+directory prefix of the path is a symbolic link then the path resolves lexically below the current
+directory, and every directory prefix is a real directory. -/
+theorem guard_resolves_below_cwd (fs : Fs.St) (p : Bytes) (q : Fs.Path)
+    (hrel : p.head? ≠ some 0x2f) (hnd : GlobFs.NoDotDot p)
+    (hg : passesThroughSymlink fs p = false)
+    (hr : Fs.resolvePath fs false p = some q) :
+    q = fs.cwd ++ GlobFs.comps p ∧
+      ∀ pre, GlobFs.ProperPre pre (GlobFs.comps p) → ∃ m t, Fs.lookup fs (fs.cwd ++ pre) = some (.dir m t) :=
+  GlobFs.guard_resolve fs p q hrel hnd hg hr
+
+/-- creating a deferred (dangerous) link: whatever the file system contains — links put in place of
+directories, chains of links — every mutation of `lha_reader_extract` on a deferred link happens at
+`cwd ++ components(filename)`, i.e. inside the extraction directory; when the guard answers "yes"
+nothing is touched and the call fails. -/
+theorem deferred_link_contained (rd : Reader.St) (fs : Fs.St) (filename : Bytes) (c : Reader.HObj)
+    (ht : rd.currType = .deferred) (hc : rd.curr = some c)
+    (hrel : filename.head? ≠ some 0x2f) (hnd : GlobFs.NoDotDot filename) :
+    ∃ new, (readerExtract rd fs filename).2.2.log = new ++ fs.log ∧
+      ∀ m ∈ new, m.path = fs.cwd ++ GlobFs.comps filename :=
+  GlobFs.deferred_contained rd fs filename c ht hc hrel hnd
+
+theorem deferred_link_refused (rd : Reader.St) (fs : Fs.St) (filename : Bytes) (c : Reader.HObj)
+    (ht : rd.currType = .deferred) (hc : rd.curr = some c)
+    (hg : passesThroughSymlink fs filename = true) :
+    (readerExtract rd fs filename).1 = false ∧ (readerExtract rd fs filename).2.2 = fs :=
+  GlobFs.deferred_refused rd fs filename c ht hc hg
 
 end LhasaV.Props.C10
